@@ -198,7 +198,8 @@ func (x *opPath) Validate(rootValue cue.Value, cuePath CuePath, blockedRootField
 			}
 
 			returnsKnownValues := false
-			part, returnedType, returnsKnownValues, err = t.Validate(rootValue, cuePath, part.ReturnType(), blockedRootFields)
+			_, previousWasFunction := part.(*Function)
+			part, returnedType, returnsKnownValues, err = t.Validate(rootValue, cuePath, part.ReturnType(), previousWasFunction, blockedRootFields)
 			if err != nil {
 				shouldErrorRemaining = true
 			}
